@@ -610,6 +610,10 @@ func findExec(pr *propRun, ob *Obligation) *Exec {
 
 func writeReplay(cfg Config, prop, name string, payload map[string]interface{}) string {
 	dir := filepath.Join(cfg.Verif, "replays", prop)
+	if d := os.Getenv("GOCV_SELFTEST_DIR"); d != "" {
+		// must-fail self-test on a scratch copy: nothing is written into /verif
+		dir = filepath.Join(d, "replays", prop)
+	}
 	os.MkdirAll(dir, 0o755)
 	fn := sanitize(name)
 	if len(fn) > 120 {
@@ -622,6 +626,9 @@ func writeReplay(cfg Config, prop, name string, payload map[string]interface{}) 
 }
 
 func writeEvidence(cfg Config, p *Program, pr *propRun, tier string, seed, violations, discharged int, undecided, knownHit []string, wall float64) {
+	if os.Getenv("GOCV_SELFTEST_DIR") != "" {
+		return
+	}
 	type ev struct {
 		PropertyID  string                 `json:"property_id"`
 		Tier        string                 `json:"tier"`
